@@ -4,6 +4,7 @@ import (
 	"fmt"
 	"go/token"
 	"go/types"
+	"sort"
 	"strings"
 
 	"golang.org/x/tools/go/ssa"
@@ -79,7 +80,40 @@ func allowedOrigin(p *core.Program, v ssa.Value, ri *core.ResultInfo, depth int,
 	case *ssa.Call:
 		return callDecision(p, x, ri, depth, seen)
 	case *ssa.Parameter:
-		return false, "decision is a parameter " + x.Name()
+		// a helper that is handed the decision: every live call of it must hand over a decision
+		fn := x.Parent()
+		idx := -1
+		for i, q := range fn.Params {
+			if q == x {
+				idx = i
+			}
+		}
+		pk := core.FuncPkg(fn)
+		if idx < 0 || pk == nil || pk.Path() != checkPkg || (fn.Object() != nil && fn.Object().Exported()) {
+			return false, "decision is a parameter " + x.Name()
+		}
+		live, _ := p.KG().Live()
+		var ds []string
+		n := 0
+		for _, e := range p.KG().In[fn] {
+			if !live[e.Caller] {
+				continue
+			}
+			ci, isCall := e.Site.(ssa.CallInstruction)
+			if e.Kind != "static" || !isCall || idx >= len(ci.Common().Args) {
+				return false, "decision is a parameter " + x.Name() + " of a function that is not only called directly"
+			}
+			n++
+			o, d := allowedOrigin(p, ci.Common().Args[idx], ri, depth+1, seen)
+			if !o {
+				return false, "parameter " + x.Name() + " of " + core.FuncName(fn) + " <- " + d
+			}
+			ds = append(ds, d)
+		}
+		if n == 0 {
+			return false, "decision is a parameter " + x.Name() + " of a function without callers"
+		}
+		return true, "parameter " + x.Name() + " <- " + strings.Join(dedupe(ds), " | ")
 	}
 	return false, "decision has an unrecognised origin: " + v.String()
 }
@@ -229,6 +263,7 @@ func runC08(c *Ctx) {
 
 	// R08.2 stores into Allowed fields
 	nAllowed := 0
+	allowedIn := map[*ssa.Function]bool{}
 	for _, fn := range p.KetoFuncs("internal/check") {
 		core.Instrs(fn, func(_ *ssa.BasicBlock, _ int, ins ssa.Instruction) {
 			st, ok := ins.(*ssa.Store)
@@ -244,6 +279,7 @@ func runC08(c *Ctx) {
 				return
 			}
 			nAllowed++
+			allowedIn[core.Outermost(fn)] = true
 			ok2, desc := allowedOrigin(p, st.Val, ri, 0, map[ssa.Value]bool{})
 			owner := "?"
 			if n := core.NamedOf(fa.X.Type()); n != nil {
@@ -257,8 +293,22 @@ func runC08(c *Ctx) {
 				"the decision written to the response is "+desc, "the decision written to the response is not the engine's: "+desc)
 		})
 	}
-	if nAllowed < 6 {
-		r.Undecide("R08.2", "", "Allowed stores", "", fmt.Sprintf("%d stores into an Allowed field found (floor 6)", nAllowed))
+	// floor: every check entry writes its decision through a store judged above (in its own body
+	// or in a helper it calls)
+	for _, e := range entries {
+		reach := g.Reach([]*ssa.Function{e.Fn}, nil)
+		hit := false
+		for f := range allowedIn {
+			if reach.Has(f) {
+				hit = true
+			}
+		}
+		if !hit {
+			r.Undecide("R08.2", core.FuncName(e.Fn), "Allowed store of the entry", e.Pos, "no store into an Allowed response field was found on the paths of this check entry")
+		}
+	}
+	if nAllowed < 1 || len(entries) < 7 {
+		r.Undecide("R08.2", "", "Allowed stores", "", fmt.Sprintf("%d stores into an Allowed field, %d check entries (floor 1 and 7)", nAllowed, len(entries)))
 	}
 
 	// R08.3 mirror handlers
@@ -273,32 +323,36 @@ func runC08(c *Ctx) {
 		type wcall struct {
 			ins  ssa.Instruction
 			code int64
+			dec  ssa.Value // the decision as seen where the write is (a helper's parameter), nil: allowedVal
 		}
 		var writes []wcall
-		core.Instrs(fn, func(_ *ssa.BasicBlock, _ int, ins ssa.Instruction) {
-			ci, ok := ins.(ssa.CallInstruction)
-			if !ok {
-				return
-			}
-			obj := core.CalleeObj(ci.Common())
-			if obj == nil {
-				return
-			}
-			if obj.Pkg() != nil && obj.Pkg().Path() == herodotPkg {
-				switch obj.Name() {
-				case "Write":
-					writes = append(writes, wcall{ins, 200})
-				case "WriteCode":
-					for _, a := range ci.Common().Args {
-						if k, ok := core.IntConst(a); ok {
-							writes = append(writes, wcall{ins, k})
-						}
-					}
-				case "WriteCreated":
-					writes = append(writes, wcall{ins, 201})
+		collect := func(in *ssa.Function, decision ssa.Value) {
+			core.Instrs(in, func(_ *ssa.BasicBlock, _ int, ins ssa.Instruction) {
+				ci, ok := ins.(ssa.CallInstruction)
+				if !ok {
+					return
 				}
-			}
-		})
+				obj := core.CalleeObj(ci.Common())
+				if obj == nil {
+					return
+				}
+				if obj.Pkg() != nil && obj.Pkg().Path() == herodotPkg {
+					switch obj.Name() {
+					case "Write":
+						writes = append(writes, wcall{ins, 200, decision})
+					case "WriteCode":
+						for _, a := range ci.Common().Args {
+							if k, ok := core.IntConst(a); ok {
+								writes = append(writes, wcall{ins, k, decision})
+							}
+						}
+					case "WriteCreated":
+						writes = append(writes, wcall{ins, 201, decision})
+					}
+				}
+			})
+		}
+		collect(fn, nil)
 		// the decision: first bool result of a helper call
 		core.Instrs(fn, func(_ *ssa.BasicBlock, _ int, ins ssa.Instruction) {
 			if ex, ok := ins.(*ssa.Extract); ok && core.BoolType(ex.Type()) {
@@ -307,6 +361,24 @@ func runC08(c *Ctx) {
 				}
 			}
 		})
+		// a helper of the package the handler hands the decision to writes the response for it
+		if allowedVal != nil {
+			core.Instrs(fn, func(_ *ssa.BasicBlock, _ int, ins ssa.Instruction) {
+				ci, ok := ins.(ssa.CallInstruction)
+				if !ok {
+					return
+				}
+				sc := ci.Common().StaticCallee()
+				if sc == nil || sc.Blocks == nil || core.FuncPkg(sc) == nil || core.FuncPkg(sc).Path() != checkPkg {
+					return
+				}
+				for i, a := range ci.Common().Args {
+					if core.ValueOrigin(a) == allowedVal && i < len(sc.Params) {
+						collect(sc, sc.Params[i])
+					}
+				}
+			})
+		}
 		if allowedVal == nil || len(writes) == 0 {
 			r.Undecide("R08.3", name, "status of "+e.Path, e.Pos, "cannot find the decision value or the response writes in this handler")
 			continue
@@ -314,9 +386,21 @@ func runC08(c *Ctx) {
 		var bad []string
 		for _, w := range writes {
 			pol := 0 // +1 only when allowed, -1 only when denied
+			dec := allowedVal
+			if w.dec != nil {
+				dec = w.dec
+			}
 			for _, cd := range core.CondsAt(w.ins.Block()) {
-				if core.ValueOrigin(cd.V) == allowedVal {
-					if cd.True {
+				v, truth := cd.V, cd.True
+				for {
+					u, isNot := v.(*ssa.UnOp)
+					if !isNot || u.Op != token.NOT {
+						break
+					}
+					v, truth = u.X, !truth
+				}
+				if core.ValueOrigin(v) == dec {
+					if truth {
 						pol = 1
 					} else {
 						pol = -1
@@ -422,24 +506,34 @@ func r084(c *Ctx, ri *core.ResultInfo) {
 			if !ok {
 				return
 			}
-			ia, ok := st.Addr.(*ssa.IndexAddr)
+			// results[i] = ...  or  slot := &results[i]; *slot = ...
+			ia, ok := core.ValueOrigin(st.Addr).(*ssa.IndexAddr)
 			if !ok || !ri.IsResult(st.Val.Type()) {
 				return
 			}
 			nStores++
 			name := core.FuncName(fn)
 			idxIter, idxPart := rangeOf(ia.Index)
-			// the value: a CheckRelationTuple call on this iteration's tuple, or a literal with the mapping error of this iteration's tuple
-			tupleIter, tuplePart, how := resultTupleOrigin(st.Val, ri)
-			ok2 := idxIter != nil && tupleIter != nil && idxIter == tupleIter && idxPart == "key" && tuplePart == "value"
-			detail := fmt.Sprintf("slot index from %s of %v, value from %s of %v (%s)", idxPart, nameOf(idxIter), tuplePart, nameOf(tupleIter), how)
+			// the value: everything it is computed from (through helpers) that is an element of a
+			// ranged-over slice must be this iteration's element
+			srcs, fixed := iterSources(st.Val)
+			ok2 := idxIter != nil && idxPart == "key" && len(srcs) > 0 && !fixed
+			var names []string
+			for it := range srcs {
+				names = append(names, nameOf(it))
+				if it != idxIter {
+					ok2 = false
+				}
+			}
+			sort.Strings(names)
+			detail := fmt.Sprintf("slot index from %s of %v, value computed from the element(s) of iteration %v (an element at a fixed index: %v)", idxPart, nameOf(idxIter), names, fixed)
 			r.Check(ok2, "R08.4", name, "results[i] = ...", p.Pos(st.Pos()),
 				"the slot index and the tuple whose check/mapping produced the value come from the same loop iteration: "+detail,
 				"a batch result slot is written from something other than its own tuple's check: "+detail)
 		})
 	}
-	if nStores < 2 {
-		r.Undecide("R08.4", core.FuncName(bc), "results[i] stores", p.Pos(bc.Pos()), fmt.Sprintf("%d stores into the batch results found (floor 2: mapping error, check result)", nStores))
+	if nStores < 1 {
+		r.Undecide("R08.4", core.FuncName(bc), "results[i] stores", p.Pos(bc.Pos()), fmt.Sprintf("%d stores into the batch results found (floor 1)", nStores))
 	}
 	// handlers: responses[i] built from results[i]; size limit before the engine call
 	for _, hn := range []string{"(*internal/check.Handler).doBatchCheck", "(*internal/check.Handler).BatchCheck"} {
@@ -668,4 +762,149 @@ func r085(c *Ctx, rule string, rels []string) {
 	if n == 0 {
 		r.Undecide(rule, "", "json decode target", "", "no JSON decode call found in the handler packages")
 	}
+}
+
+// iterSources: the loop iterations whose element the value v is computed from - a backward data
+// slice through operands, cells, captured variables, composite literals and (with parameters
+// bound to the arguments) the returns of keto helpers. An element of a slice read at a loop
+// counter k is the source k; fixed reports an element read at a constant index.
+func iterSources(v ssa.Value) (srcs map[ssa.Value]bool, fixed bool) {
+	srcs = map[ssa.Value]bool{}
+	seen := map[ssa.Value]bool{}
+	type frame struct {
+		call *ssa.Call
+		fn   *ssa.Function
+	}
+	var walk func(v ssa.Value, stack []frame, depth int)
+	walk = func(v ssa.Value, stack []frame, depth int) {
+		if v == nil || depth > 40 {
+			return
+		}
+		if seen[v] {
+			return
+		}
+		seen[v] = true
+		switch x := v.(type) {
+		case *ssa.Const, *ssa.Global, *ssa.Function, *ssa.Builtin:
+			return
+		case *ssa.Parameter:
+			// a helper's parameter stands for the argument at the call we came through
+			for i := len(stack) - 1; i >= 0; i-- {
+				if stack[i].fn == x.Parent() {
+					for k, q := range x.Parent().Params {
+						if q == x && k < len(stack[i].call.Call.Args) {
+							walk(stack[i].call.Call.Args[k], stack[:i], depth+1)
+						}
+					}
+					return
+				}
+			}
+			return
+		case *ssa.FreeVar:
+			if b := core.FreeVarBinding(x); b != nil {
+				walk(b, stack, depth+1)
+			}
+			return
+		case *ssa.Extract:
+			if nx, ok := x.Tuple.(*ssa.Next); ok {
+				if x.Index == 2 {
+					srcs[nx.Iter] = true
+				}
+				return
+			}
+			walk(x.Tuple, stack, depth+1)
+			return
+		case *ssa.UnOp:
+			if x.Op == token.MUL {
+				switch a := x.X.(type) {
+				case *ssa.IndexAddr:
+					if _, isSlice := a.X.Type().Underlying().(*types.Slice); isSlice {
+						if _, isK := core.IntConst(a.Index); isK {
+							// an element at a fixed index: of a ranged-over input, or of a local list
+							if _, isPar := core.ValueOrigin(a.X).(*ssa.Parameter); isPar {
+								fixed = true
+								return
+							}
+						} else if it, part := rangeOf(x); it != nil && part == "value" {
+							if _, isPar := core.ValueOrigin(a.X).(*ssa.Parameter); isPar {
+								srcs[it] = true
+								return
+							}
+						}
+					}
+					walk(a.X, stack, depth+1)
+					return
+				case *ssa.Alloc:
+					for _, st := range core.CellStores(a) {
+						walk(st.Val, stack, depth+1)
+					}
+					// fields and elements written into the cell
+					walk(a, stack, depth+1)
+					return
+				}
+			}
+			walk(x.X, stack, depth+1)
+			return
+		case *ssa.Alloc:
+			if x.Referrers() != nil {
+				for _, ref := range *x.Referrers() {
+					switch y := ref.(type) {
+					case *ssa.Store:
+						if y.Addr == ssa.Value(x) {
+							walk(y.Val, stack, depth+1)
+						}
+					case *ssa.FieldAddr:
+						if y.Referrers() != nil {
+							for _, r2 := range *y.Referrers() {
+								if st, ok := r2.(*ssa.Store); ok && st.Addr == ssa.Value(y) {
+									walk(st.Val, stack, depth+1)
+								}
+							}
+						}
+					case *ssa.IndexAddr:
+						if y.Referrers() != nil {
+							for _, r2 := range *y.Referrers() {
+								if st, ok := r2.(*ssa.Store); ok && st.Addr == ssa.Value(y) {
+									walk(st.Val, stack, depth+1)
+								}
+							}
+						}
+					}
+				}
+			}
+			return
+		case *ssa.Call:
+			callee := x.Call.StaticCallee()
+			if callee != nil && callee.Blocks != nil && len(stack) < 3 && core.FuncPkg(callee) != nil && core.IsKeto(core.FuncPkg(callee)) && callee.Name() != "CheckRelationTuple" && callee.Name() != "FromTuple" {
+				st2 := append(append([]frame{}, stack...), frame{x, callee})
+				core.Instrs(callee, func(_ *ssa.BasicBlock, _ int, ins ssa.Instruction) {
+					if ret, ok := ins.(*ssa.Return); ok {
+						for _, rv := range ret.Results {
+							// a value seen in one calling context may mean something else in another
+							delete(seen, rv)
+							walk(rv, st2, depth+1)
+						}
+					}
+				})
+				return
+			}
+			for _, a := range x.Call.Args {
+				walk(a, stack, depth+1)
+			}
+			if !x.Call.IsInvoke() {
+				walk(x.Call.Value, stack, depth+1)
+			}
+			return
+		}
+		if ins, ok := v.(ssa.Instruction); ok {
+			var ops []*ssa.Value
+			for _, op := range ins.Operands(ops) {
+				if op != nil && *op != nil {
+					walk(*op, stack, depth+1)
+				}
+			}
+		}
+	}
+	walk(v, nil, 0)
+	return
 }
